@@ -849,11 +849,11 @@ func Eq(a Object, b Object) (Object, error) {
 		}
 	}
 
-	if a.Type() != b.Type() {
-		return False, nil
+	// Neither object defines the comparison: the default is identity
+	if ObjectIs(a, b) {
+		return True, nil
 	}
-
-	return nil, ExceptionNewf(TypeError, "unsupported operand type(s) for ==: '%s' and '%s'", a.Type().Name, b.Type().Name)
+	return False, nil
 }
 
 // Ne two python objects returning a boolean result
@@ -882,9 +882,9 @@ func Ne(a Object, b Object) (Object, error) {
 		}
 	}
 
-	if a.Type() != b.Type() {
-		return True, nil
+	// Neither object defines the comparison: the default is identity
+	if ObjectIs(a, b) {
+		return False, nil
 	}
-
-	return nil, ExceptionNewf(TypeError, "unsupported operand type(s) for !=: '%s' and '%s'", a.Type().Name, b.Type().Name)
+	return True, nil
 }
